@@ -209,6 +209,15 @@ class Wrapped(InstructionGenerator):
 # ---------------------------------------------------------------------------------------------
 
 
+def spoil_memberships(requests: List[Dict[str, Any]], rng: random.Random, has_fleets: bool, p: float = 0.12) -> None:
+    """some rows of the request file contradict the scenario (they name a fleet where none is defined, or none where
+    fleets are defined): hive skips such a row with a warning - and must skip nothing else"""
+    for r in requests:
+        if rng.random() < p:
+            r["fleet"] = None if has_fleets else "fx"
+            r["skipped_by_design"] = True
+
+
 def gen_queue_world(rng: random.Random, n_steps: int, variant: Optional[str] = None) -> Dict[str, Any]:
     """one station with ONE slow plug and 4-6 vehicles at or next to it, several (nearly) full, some nearly flat: long
     queues, arrivals in different steps, ids assigned against the arrival order, vehicles running flat while waiting"""
@@ -419,6 +428,7 @@ def gen_input_world(rng: random.Random, n_steps: int, dt: Optional[int] = None) 
         if rng.random() < 0.3:
             t = start + ((t - start) // dt) * dt          # exactly on a step boundary
     requests = [r for r in requests if r["dep"] >= 0]
+    spoil_memberships(requests, rng, False, p=0.08)
     requests.sort(key=lambda r: r["dep"])
     mode = rng.choice(["station_id", "station_id", "region_coarse", "region_search", "region_fine"])
     prices: List[Dict[str, Any]] = []
@@ -694,6 +704,7 @@ def gen_world(rng: random.Random, *, n_steps: int = 40, fleets: Optional[bool] =
         requests.append({"id": f"r{k+1:02d}", "o": o, "d": d, "dep": dep, "pax": rng.randint(1, 2),
                          "fleet": rng.choice(fleet_ids) if fleet_ids else None,
                          "pool": bool(pool and rng.random() < 0.25)})      # requests that allow pooling (finding F15)
+    spoil_memberships(requests, rng, bool(fleet_ids))
     requests.sort(key=lambda r: (r["dep"], r["id"]))
     w: Dict[str, Any] = {
         "name": "adv", "dt": dt, "start": 0, "end": t_end, "cancel": rng.choice([3 * dt, 5 * dt, 600]),
